@@ -344,4 +344,45 @@ def r5_capture(a, tier):
     return rep
 
 
-RULES = [r1_draw_submit, r2_pop_yield, r3_snapshot, r4_same_worker, r5_capture]
+def r6_fresh_run_state(a, tier):
+    rep = RuleReport(
+        'C18.R6',
+        'every run has its own stop event and keeps nothing between runs: in parproc() the stop event handed to the tasks and to '
+        'pmap is created by a constructor call in that function (threading.Event() / Manager().Event()) on every path, never '
+        'fetched from a memoised function or a module-level object; the parproc package holds no memoised function and no '
+        'module-level mutable object (a stop event that a finished or interrupted run left set would make every later run yield '
+        'InterruptedError results or nothing)',
+        floor=2,
+    )
+    fn = a.p.func('tatsu.parproc.parproc.parproc')
+    # the local that flows into Task(stop=...) and into the pmap call
+    stop_names = {k.value.id for n in walk_no_defs(fn.node) if isinstance(n, ast.Call) and dotted(n.func) == 'Task'
+                  for k in n.keywords if k.arg == 'stop' and isinstance(k.value, ast.Name)}
+    if not stop_names:
+        raise AnalysisError('parproc: Task(stop=<local>) not found')
+    for v in sorted(stop_names):
+        binds = _bindings(fn, v)
+        ok = bool(binds) and all(b is not None and isinstance(b, ast.Call) and dotted(b.func).split('.')[-1] == 'Event' for b in binds)
+        rep.add({'stop_event_local': v, 'bound_to': [norm(b) if b is not None else '?' for b in binds], 'fresh_per_run': ok})
+        if not ok:
+            rep.fail(fn.qualname, f'shared-stop:{v}', f'the stop event `{v}` of parproc() is bound to {[norm(b) if b is not None else "?" for b in binds]}, '
+                     f'not to a fresh Event() on every path: runs share it, and once it is set (a consumer stopped a run, a task was '
+                     f'interrupted) every later run is stopped before it starts', fn.loc)
+    for f in a.p.functions.values():
+        if f.module.name.startswith('tatsu.parproc') and any(d.split('.')[-1].split('(')[0] in ('cache', 'lru_cache', 'cached_property') for d in f.decorators):
+            rep.add({'memoised_function_in_parproc': f.qualname})
+            rep.fail(f.qualname, 'memoised', f'{f.qualname} is memoised: its result is shared by every run in the process', f.loc)
+    for m_ in a.p.modules.values():
+        if m_.name.startswith('tatsu.parproc'):
+            for name, val in m_.assigns.items():
+                if isinstance(val, (ast.Dict, ast.List, ast.Set)) or (isinstance(val, ast.Call) and dotted(val.func).split('.')[-1] in (
+                        'dict', 'list', 'set', 'Event', 'Lock', 'Manager', 'Queue', 'deque', 'defaultdict')):
+                    if name == '__all__':
+                        continue
+                    rep.add({'module_level_object': f'{m_.name}.{name}'})
+                    rep.fail(f'{m_.name}.{name}', 'module-state', f'{m_.name}.{name} is a module-level mutable object shared by all runs', m_.relpath)
+    rep.add({'package_scanned': 'tatsu.parproc'})
+    return rep
+
+
+RULES = [r1_draw_submit, r2_pop_yield, r3_snapshot, r4_same_worker, r5_capture, r6_fresh_run_state]
